@@ -23,7 +23,7 @@ for pid in sorted(CLAIMED):
         "level_note": c["note"],
         "technique": "contract-based deductive verification: weakest-precondition VCs generated from go/ssa of the real functions, contracts in //go:build verif comment files, discharged by z3/cvc5",
     })
-hooks_commits = subprocess.run(["git", "-C", "/repo", "log", "--format=%H", "--grep=^hook:"], capture_output=True, text=True).stdout.split()
+hooks_commits = subprocess.run(["git", "-C", "/repo", "log", "--format=%H", "--", "*verif_contracts*"], capture_output=True, text=True).stdout.split()
 m = {
     "version": 1,
     "setup_cmd": "cd /verif/engine && GOFLAGS=-mod=vendor GOPROXY=off GOSUMDB=off GOTOOLCHAIN=local go build -o ../bin/govc ./cmd/govc",
